@@ -191,6 +191,7 @@ func (sc *Scheduler) Schedule(ctx context.Context, g *ExecutionGraph, done chan 
 							)
 							verifhook.Point("dagsched.retry.wait", node)
 							time.Sleep(node.data.Step.RetryPolicy.Interval)
+							verifhook.Point("dagsched.retry.waited", node)
 							node.setRetriedAt(time.Now())
 							node.setStatus(NodeStatusNone)
 						default:
